@@ -16,7 +16,8 @@ Definition report : list (string * bool) :=
     ("meta_inbound_scope", meta_inbound_scope gen_meta_inbound);
     ("wait_graph_ranked", wait_graph_ranked gen_funcs gen_entries gen_meta_inbound);
     ("no_peer_close_in_shared_server", no_peer_close_in_shared_server gen_funcs);
-    ("skeleton_conforms", skeleton_conforms gen_funcs gen_submitters) ].
+    ("skeleton_conforms", skeleton_conforms gen_funcs gen_submitters);
+    ("closable_senders_covered", closable_senders_covered gen_funcs) ].
 
 Definition REPORT := report.
 Eval vm_compute in REPORT.
@@ -35,6 +36,9 @@ Eval vm_compute in NONCONFORMING.
 
 Definition NONCONFORMING_DETAIL := nonconforming gen_funcs gen_submitters.
 Eval vm_compute in NONCONFORMING_DETAIL.
+
+Definition UNCOVERED_SENDERS := uncovered_senders gen_funcs.
+Eval vm_compute in UNCOVERED_SENDERS.
 
 Definition INVENTORY_SIZE :=
   (length gen_funcs, fold_right (fun f n => (length (f_ops f) + n)%nat) 0%nat gen_funcs,
